@@ -176,7 +176,8 @@ Inductive effect :=
 | ERegister (a : bytes) (t : Z)      (* peers.addPeer created the registry entry *)
 | ENotify (a : bytes) (t : Z)        (* notifier.Connected(peer) *)
 | EReturnPeer (a : bytes) (t : Z)    (* Connect returns the peer to its caller *)
-| EReturnErr (c : refusal).          (* Connect returns the error *)
+| EReturnErr (c : refusal)           (* Connect returns the handshake's error *)
+| EReturnNotFound.                   (* Connect returns p2p.ErrPeerNotFound (nothing registered) *)
 
 (* outcome of peers.addPeer(conn, peer) (pkg/p2p/libp2p/peers.go) *)
 Inductive add_res :=
@@ -221,16 +222,31 @@ Definition handle_connect_req_v0 (has_notifier : bool) (add : add_res_v0) (r : r
       end
   end.
 
-(* Connect from the point where the handshake stream has been opened *)
-Definition connect (add : add_res) (r : result) : list effect :=
+(* Connect from the point where the handshake stream has been opened.  After addPeer answered
+   "exists" Connect asks peers.getPeer(peer id): [known] is that answer (not asked otherwise).  When
+   the peer is not there (the connection closed during the handshake, nothing was registered) the
+   caller gets ErrPeerNotFound instead of the peer. *)
+Definition connect_tail (add : add_res) (known : bool) (r : result) : list effect :=
   match r with
   | Refuse c => EClosePeer :: block_effects c04_outbound_durations c ++ [EReturnErr c]
   | Enrol a t =>
       match add with
       | Added => [ERegister a t; EReturnPeer a t]
-      | NotAdded => [EReturnPeer a t]
+      | NotAdded => if known then [EReturnPeer a t] else [EReturnNotFound]
       end
   end.
+
+(* the tail when getPeer finds the peer (or is not asked); the refusal branch -- all that the
+   blocking theorems of other files use -- does not depend on that answer *)
+Definition connect (add : add_res) (r : result) : list effect := connect_tail add true r.
+
+(* before commit db8f6a6 Connect did not ask getPeer: it told its caller "connected" although
+   nothing was (or remained) registered *)
+Definition connect_tail_v1 (add : add_res) (known : bool) (r : result) : list effect := connect add r.
+
+(* is the remote in the peer registry when Connect returns after an admissible handshake? *)
+Definition known_after (add : add_res) (known : bool) : bool :=
+  match add with Added => true | NotAdded => known end.
 
 Definition inbound (c : config) (o : oracles) (wfail : nat -> bool) (script : list frame)
            (has_notifier : bool) (add : add_res) : list effect :=
@@ -239,6 +255,10 @@ Definition inbound (c : config) (o : oracles) (wfail : nat -> bool) (script : li
 Definition outbound (c : config) (o : oracles) (wfail : nat -> bool) (script : list frame)
            (add : add_res) : list effect :=
   connect add (res (handshake c o wfail script)).
+
+Definition outbound_tail (c : config) (o : oracles) (wfail : nat -> bool) (script : list frame)
+           (add : add_res) (known : bool) : list effect :=
+  connect_tail add known (res (handshake c o wfail script)).
 
 (* ---- specification vocabulary (used by the theorems; independent of the functions above) ------ *)
 
@@ -284,3 +304,62 @@ Definition run_step (c : config) (s : step) : run :=
   if s_dir s then handle c (s_oracles s) (s_wfail s) (s_script s)
   else handshake c (s_oracles s) (s_wfail s) (s_script s).
 Definition session (c : config) (steps : list step) : list run := map (run_step c) steps.
+
+(* ---- one remote over time: the registry entry, Connect's short cut --------------------------------
+   State: the entry of the peer registry for this remote (overlays[peer id] with a tracked
+   connection), None when absent.  Events: an inbound handshake stream (handleConnectReq), a call
+   of Connect, the loss of the last connection (peerRegistry.Disconnected).  [closed] = the
+   connection of that handshake has already closed when addPeer runs.  Connect first asks
+   peers.isConnected(peer id): a present entry is returned to the caller as it is, without any
+   handshake. *)
+Inductive event :=
+| EvInbound (o : oracles) (wfail : nat -> bool) (script : list frame) (has_notifier closed : bool)
+| EvConnect (o : oracles) (wfail : nat -> bool) (script : list frame) (closed : bool)
+| EvDisconnect.
+
+(* peers.addPeer, then (in Connect) peers.getPeer, against the entry *)
+Definition add_outcome (entry : option (bytes * Z)) (closed : bool) : add_res * bool :=
+  match entry with
+  | Some _ => (NotAdded, true)
+  | None => if closed then (NotAdded, false) else (Added, true)
+  end.
+
+Definition entry_after (entry : option (bytes * Z)) (add : add_res) (r : result) : option (bytes * Z) :=
+  match r, add with
+  | Enrol a t, Added => Some (a, t)
+  | _, _ => entry
+  end.
+
+Definition node_step (c : config) (entry : option (bytes * Z)) (ev : event)
+  : option (bytes * Z) * list effect :=
+  match ev with
+  | EvDisconnect => (None, [])
+  | EvInbound o wfail script has_notifier closed =>
+      let r := res (handle c o wfail script) in
+      let add := fst (add_outcome entry closed) in
+      (entry_after entry add r, handle_connect_req has_notifier add r)
+  | EvConnect o wfail script closed =>
+      match entry with
+      | Some (a, t) => (entry, [EReturnPeer a t])          (* isConnected short cut *)
+      | None =>
+          let r := res (handshake c o wfail script) in
+          let ak := add_outcome None closed in
+          (entry_after None (fst ak) r, connect_tail (fst ak) (snd ak) r)
+      end
+  end.
+
+Definition node_run (c : config) (evs : list event) : option (bytes * Z) :=
+  fold_left (fun st ev => fst (node_step c st ev)) evs None.
+
+(* the handshake carried by an event was admissible for (A, T), with the oracle answers of that event *)
+Definition event_proves (c : config) (ev : event) (A : bytes) (T : Z) : Prop :=
+  match ev with
+  | EvInbound o wfail script _ _ => resp_ok c o wfail script A T
+  | EvConnect o wfail script _ => init_ok c o wfail script A T
+  | EvDisconnect => False
+  end.
+
+(* (A, T) is backed in a history: some event carried an admissible handshake for (A, T) and the
+   remote has not been disconnected since *)
+Definition backed (c : config) (evs : list event) (A : bytes) (T : Z) : Prop :=
+  exists before ev after, evs = before ++ ev :: after /\ event_proves c ev A T /\ ~ In EvDisconnect after.
